@@ -19,12 +19,12 @@ theorem C06_release_once (cap : Nat) (as : List Act) (st : St) (h : run (init ca
 
 /-- … and exactly once, with the id free again, when its response was consumed -/
 theorem C06_released_when_consumed (cap : Nat) (as : List Act) (st : St) (h : run (init cap) as = some st)
-    (d c : Nat) (hr : st.pc d = .done (.resp c)) : st.clears d = 1 ∧ ∀ s, st.owner s ≠ some d := by
+    (d c k w : Nat) (hr : st.pc d = .done (.resp c k w)) : st.clears d = 1 ∧ ∀ s, st.owner s ≠ some d := by
   have inv := inv_run as _ st (inv_init cap) h
-  refine ⟨inv.resp_clear d c hr, ?_⟩
+  refine ⟨inv.resp_clear d c k w hr, ?_⟩
   intro s hs
   have := inv.own_pc s d hs
-  have := inv.resp_clear d c hr
+  have := inv.resp_clear d c k w hr
   omega
 
 /-- a connection with nothing outstanding has its full complement of ids: an id is only reserved by a call
@@ -52,8 +52,8 @@ theorem C06_waiting_never_stuck (st : St) (c s : Nat) (hw : st.pc c = .waiting s
     (step st (.timeout c)).isSome = true := by
   simp [step, hw]
 
-example : ∃ st, run (init 128) [.acquire 1 5, .wrote 1, .answer 5, .deliver 5] = some st ∧
-    st.pc 1 = .done (.resp 1) ∧ st.clears 1 = 1 ∧ st.owner 5 = none := by
+example : ∃ st, run (init 128) [.acquire 1 5, .wrote 1, .stray 63, .answer 5 18 1, .event, .deliver 5] = some st ∧
+    st.pc 1 = .done (.resp 1 18 1) ∧ st.clears 1 = 1 ∧ st.owner 5 = none := by
   refine ⟨_, rfl, ?_, ?_, ?_⟩ <;> decide
 
 end C06
